@@ -33,6 +33,11 @@ Definition cmp_of (c : cmpcode) (a b : Z) : Z :=
   | CmpModMagR k => (b mod k) - (a mod k)
   end.
 
+(* one letter of a compound walk w<r>:<seq>: a move, or HasNext / HasPrev / Valid / Key called there *)
+Inductive wstep : Type := WMove (m : move) | WHasNext | WHasPrev | WValid | WKey.
+(* what the observers inside a walk answered *)
+Inductive wres : Type := RB (b : bool) | RK (k : Z).
+
 Inductive cop : Type :=
 | CK (r : nat) (k : Z)          (* reg r = Tree.Cursor(k) *)
 | CO (r : nat)                  (* Tree.Root() *)
@@ -43,7 +48,8 @@ Inductive cop : Type :=
 | CI (r : nat)                  (* Inorder, all *)
 | CJ (r : nat) (lim : nat)      (* Inorder, yield returns len(ks) < lim *)
 | CN (r : nat) | CP (r : nat)   (* Next / Prev until invalid, at most Len+2 steps *)
-| CG (k : Z).                   (* Tree.Get(k) *)
+| CG (k : Z)                    (* Tree.Get(k) *)
+| CW (r : nat) (seq : list wstep). (* moves with nothing observed in between; observers inside the walk *)
 
 (* one register as printed: path, Key, [Valid; HasNext; HasPrev; HasLeft; HasRight; HasParent] *)
 Definition regobs : Type := (cursor * Z * list bool)%type.
@@ -53,6 +59,7 @@ Inductive citem : Type :=
 | IInorder (ks : list Z)
 | ISweep (ks : list Z) (still_valid : bool)
 | IGet (k : Z) (ok : bool)
+| IWalk (answers : list wres) (rs : list regobs)
 | IFail.
 
 Section Trace.
@@ -95,6 +102,17 @@ Fixpoint sweep (m : move) (fuel : nat) (c : cursor) (acc : list Z) : res (cursor
     else Ok (c, rev acc)
   end.
 
+(* the letters of a compound walk, left to right; the answers of the observers in order *)
+Fixpoint walk (seq : list wstep) (c : cursor) (acc : list wres) : res (cursor * list wres) :=
+  match seq with
+  | [] => Ok (c, rev acc)
+  | WMove m :: rest => bind (step t c m) (fun c' => walk rest c' acc)
+  | WHasNext :: rest => bind (has_next t c) (fun b => walk rest c (RB b :: acc))
+  | WHasPrev :: rest => bind (has_prev t c) (fun b => walk rest c (RB b :: acc))
+  | WValid :: rest => walk rest c (RB (valid c) :: acc)
+  | WKey :: rest => bind (key 0 t c) (fun k => walk rest c (RK k :: acc))
+  end.
+
 Definition do_op (regs : list cursor) (used : nat) (o : cop) : res (list cursor * nat * citem) :=
   match o with
   | CK r k =>
@@ -131,6 +149,10 @@ Definition do_op (regs : list cursor) (used : nat) (o : cop) : res (list cursor 
     Ok (set_reg r c regs, Nat.max used (S r), ISweep ks (valid c)))
   | CG k =>
     Ok (regs, used, match get cmp k t with Some x => IGet x true | None => IGet 0 false end)
+  | CW r seq =>
+    bind (walk seq (get_reg r regs) []) (fun '(c, answers) =>
+    let regs' := set_reg r c regs in let used' := Nat.max used (S r) in
+    bind (obs_all (firstn used' regs')) (fun os => Ok (regs', used', IWalk answers os)))
   end.
 
 Fixpoint run_ops (regs : list cursor) (used : nat) (ops : list cop) : list citem :=
